@@ -6,11 +6,14 @@ import (
 	"database/sql"
 	"fmt"
 	"math/rand"
+	"os"
 	"path/filepath"
 	"sort"
 	"strings"
+	"sync"
 
 	"github.com/agglayer/aggkit/bridgesync"
+	aggkitdb "github.com/agglayer/aggkit/db"
 	"github.com/agglayer/aggkit/l1infotreesync"
 	"github.com/agglayer/aggkit/lastgersync"
 	aggsync "github.com/agglayer/aggkit/sync"
@@ -72,6 +75,72 @@ func openStore(kind, path string) (*store, error) {
 			return nil, err
 		}
 		return &store{Kind: kind, Path: path, Facade: s, DB: s.VerifDB(), process: s.VerifProcessBlock, reorg: s.VerifReorg}, nil
+	}
+	return nil, fmt.Errorf("unknown store kind %s", kind)
+}
+
+// ---- fast store creation from a migrated template ------------------------------------------------
+// The repo's RunMigrations(dbPath) opens a database handle of its own and never closes it (harmless
+// for a node, which runs it once per store). Scenario engines that build tens of thousands of worlds
+// per process would run out of file descriptors, so they create stores by copying a migrated template
+// file and opening it through the WithDB constructors, which skip RunMigrations on a migrated file.
+
+var (
+	tmplMu    sync.Mutex
+	tmplFiles = map[string][]byte{}
+)
+
+func templateBytes(kind string) ([]byte, error) {
+	tmplMu.Lock()
+	defer tmplMu.Unlock()
+	if b, ok := tmplFiles[kind]; ok {
+		return b, nil
+	}
+	path := filepath.Join(scratchDir("tmpl"), kind+".sqlite")
+	s, err := openStore(kind, path)
+	if err != nil {
+		return nil, err
+	}
+	if _, err := s.DB.Exec(`PRAGMA wal_checkpoint(TRUNCATE)`); err != nil {
+		return nil, err
+	}
+	s.Close()
+	b, err := os.ReadFile(path)
+	if err != nil {
+		return nil, err
+	}
+	tmplFiles[kind] = b
+	return b, nil
+}
+
+// openStoreFast creates (from the template) or reopens the store at path without leaking a handle
+func openStoreFast(kind, path string, originNetwork uint32) (*store, error) {
+	if _, err := os.Stat(path); err != nil {
+		b, err := templateBytes(kind)
+		if err != nil {
+			return nil, err
+		}
+		if err := os.WriteFile(path, b, 0o600); err != nil {
+			return nil, err
+		}
+	}
+	dbh, err := aggkitdb.NewSQLiteDB(path)
+	if err != nil {
+		return nil, err
+	}
+	switch kind {
+	case "bridge":
+		s, err := bridgesync.VerifNewBridgeSyncWithDB(path, "verif", originNetwork, dbh)
+		if err != nil {
+			return nil, err
+		}
+		return &store{Kind: kind, Path: path, Facade: s, DB: dbh, process: s.VerifProcessBlock, reorg: s.VerifReorg, Proc: s.VerifProcessor()}, nil
+	case "l1info":
+		s, err := l1infotreesync.VerifNewWithDB(path, dbh)
+		if err != nil {
+			return nil, err
+		}
+		return &store{Kind: kind, Path: path, Facade: s, DB: dbh, process: s.VerifProcessBlock, reorg: s.VerifReorg, Proc: s.VerifProcessor()}, nil
 	}
 	return nil, fmt.Errorf("unknown store kind %s", kind)
 }
